@@ -274,7 +274,8 @@ def parseCfg (toks : List String) : Option St :=
   | _ => none
 
 def stepLine (s : St) (line : String) : St × String :=
-  let toks := (line.trimAscii.toString.splitOn " ").filter (· ≠ "")
+  -- tokens `@<case>` only make the operation lines of different cases distinct
+  let toks := (line.trimAscii.toString.splitOn " ").filter fun t => t ≠ "" ∧ ¬ t.startsWith "@"
   match toks with
   | "cfg" :: _ =>
     match parseCfg toks with
